@@ -97,6 +97,17 @@ func pipeBody(env *simrt.Env, prop string) {
 	}
 	w.F0 = FrameIndex([]int64{0, 1, 12345, 1 << 33, 1 << 52}[simrt.Draw(5)])
 	w.T0 = time.Now().Add(time.Duration(simrt.Draw(1000)) * time.Millisecond)
+	if simrt.Draw(2) == 1 {
+		// block stamps with read-out jitter / clock skew: each block off its nominal time by its own amount
+		jit := make(map[int]time.Duration)
+		amp := int64(w.period) * int64(1+simrt.Draw(3))
+		w.stampJitter = func(b int) time.Duration {
+			if _, ok := jit[b]; !ok {
+				jit[b] = time.Duration(int64(simrt.Draw(int(2*amp))) - amp + int64(b%7) + 1)
+			}
+			return jit[b]
+		}
+	}
 
 	total := nsamp * (6 + simrt.Draw(30))
 	if total > 12000 {
@@ -261,7 +272,7 @@ func pipeBody(env *simrt.Env, prop string) {
 		simrt.Fail("C01.summary-channel", "record:summary-count", "%d records on the record channel but %d on the summary channel", len(w.sk.recs), len(w.sk.sumRecs))
 	}
 	env.Sample(map[string]interface{}{"nchan": nchan, "nsamp": nsamp, "npre": npre, "samples_per_channel": total, "blocks": len(blocks),
-		"history": []string{"fresh+ConfigureTriggers", "restored-config", "fresh+ConfigurePulseLengths", "fresh+reconfigure"}[history],
+		"history":     []string{"fresh+ConfigureTriggers", "restored-config", "fresh+ConfigurePulseLengths", "fresh+reconfigure"}[history],
 		"trigger_ch0": tsString(&obs[0].epochs[len(obs[0].epochs)-1].ts), "stream_ch0": fmt.Sprintf("kind=%d base=%d noise=%d %v", specs[0].kind, specs[0].baseline, specs[0].noise, specs[0].features),
 		"records": nrec})
 }
@@ -301,9 +312,33 @@ func checkExcerpts(w *pipeWorld, c int, o *chanObs) {
 				simrt.Fail("C01.samples", "record:samples-differ", "chan %d record %d (trigger sample %d, frame %d): data[%d]=%d but the source delivered %d at that position", c, idx, k, r.trigFrame, i, r.data[i], s[lo+i])
 			}
 		}
-		want := w.T0.Add(time.Duration(k) * w.period)
-		if !r.trigTime.Equal(want) {
-			simrt.Fail("C01.time", "record:wrong-time", "chan %d record %d: trigger sample %d stamped %v, block time stamps give %v (diff %v)", c, idx, k, r.trigTime, want, r.trigTime.Sub(want))
+		// The record was cut while some block b was the newest one delivered: b holds the record's last
+		// sample or comes later, and had been delivered when the sink saw the record. The time the block
+		// stamps assign to sample k is stamp(b) + (k - first(b)) * period for that b.
+		okTime := false
+		var cands []time.Time
+		// (ro.cycle counts hand-overs the producer task has completed; the block being processed may
+		// not be counted yet, hence <=)
+		for b := 0; b < len(w.blockFirst) && b <= ro.cycle; b++ {
+			end := w.sent
+			if b+1 < len(w.blockFirst) {
+				end = w.blockFirst[b+1]
+			}
+			if end < lo+L {
+				continue // the record's last sample had not been delivered yet
+			}
+			want := w.blockStamp[b].Add(time.Duration(k-w.blockFirst[b]) * w.period)
+			cands = append(cands, want)
+			if r.trigTime.Equal(want) {
+				okTime = true
+				break
+			}
+		}
+		if !okTime {
+			simrt.Fail("C01.time", "record:wrong-time", "chan %d record %d: trigger sample %d stamped %v, but the block time stamps give %v (one per block that could have been the newest when the record was cut)", c, idx, k, r.trigTime, cands)
+		}
+		if w.stampJitter != nil {
+			simrt.Hit("record-with-jittered-block-stamps")
 		}
 		if r.signed != w.signed[c] {
 			simrt.Fail("C01.signed", "record:wrong-signedness", "chan %d record %d: signed=%v, channel is %v", c, idx, r.signed, w.signed[c])
